@@ -42,5 +42,45 @@ def adjust (s : OStream) (offset : Int) : OStream :=
   let s := if s.tellp < offset then s.write (List.replicate (offset - s.tellp).toNat 0) else s
   s.seekp offset
 
+/-! ### failure is sticky (C16) -/
+
+theorem write_of_fail {s : OStream} (h : s.fail = true) (bs : Bytes) : s.write bs = s := by
+  simp [write, h]
+
+theorem seekp_of_fail {s : OStream} (h : s.fail = true) (p : Int) : s.seekp p = s := by
+  simp [seekp, h]
+
+theorem seekEnd_of_fail {s : OStream} (h : s.fail = true) : s.seekEnd = s := by
+  simp [seekEnd, h]
+
+theorem adjust_eq (s : OStream) (off : Int) :
+    s.adjust off =
+      (if s.seekEnd.tellp < off then
+          s.seekEnd.write (List.replicate (off - s.seekEnd.tellp).toNat 0)
+        else s.seekEnd).seekp off := rfl
+
+theorem adjust_of_fail {s : OStream} (h : s.fail = true) (off : Int) : s.adjust off = s := by
+  rw [adjust_eq, seekEnd_of_fail h]
+  split
+  · rw [write_of_fail h, seekp_of_fail h]
+  · rw [seekp_of_fail h]
+
+/-- What the driver executes for `adjust`: on a failed stream the real `adjust_stream_size` builds a
+    string of `offset + 1` zeros (`tellp() == -1`) and then writes nothing; the compiled model skips
+    building it.  Equal to `adjust` by `adjust_of_fail` (the replacement is the proved equation below,
+    not an assumption). -/
+def adjustImpl (s : OStream) (offset : Int) : OStream :=
+  if s.fail then s else
+  let s := s.seekEnd
+  let s := if s.tellp < offset then s.write (List.replicate (offset - s.tellp).toNat 0) else s
+  s.seekp offset
+
+@[csimp] theorem adjust_eq_adjustImpl : @adjust = @adjustImpl := by
+  funext s off
+  unfold adjustImpl
+  cases h : s.fail with
+  | true => simp only [↓reduceIte]; exact adjust_of_fail h off
+  | false => simp only [Bool.false_eq_true, ↓reduceIte]; rfl
+
 end OStream
 end ElfioVerif
